@@ -47,7 +47,7 @@ def step (line : String) : String :=
   | "tn" :: rest => Driver.Topic.run "tn" rest
   | "tc" :: rest => Driver.Topic.run "tc" rest
   | op :: rest =>
-    if ["senc", "yenc", "sdec", "ydec", "bdc", "bre", "crt", "dcp", "cseq"].contains op then Driver.Codec.run op rest
+    if ["senc", "yenc", "sdec", "ydec", "bdc", "bre", "crt", "dcp", "cseq", "cmp"].contains op then Driver.Codec.run op rest
     else "bad-op"
   | [] => "bad-op"
 
